@@ -157,3 +157,116 @@ class TlsStateMonitor:
                     if want and a["lb"] != want:
                         msgs.append(f"monitor: CBC residue after a record is {a['lb']}, last ciphertext block of that record is {want}")
         return msgs[:3], cnt
+
+
+class QuicMonitor:
+    """Hooks on the real QUIC objects: QuicSession.get_full_packet_number (C16), quic_frame.parse_frames as bound in every tlexport
+    module (C17), key installation points set_initial_decryptor / set_tls_decryptors / check_key_epoch (C15)."""
+
+    def install(self, d):
+        try:
+            import tlexport.quic.quic_session as QS
+            import tlexport.quic.quic_frame as QF
+            cls = QS.QuicSession
+            log = EventLog(d)
+            o_pn, o_init, o_tls, o_epoch = cls.get_full_packet_number, cls.set_initial_decryptor, cls.set_tls_decryptors, cls.check_key_epoch
+            o_parse = QF.parse_frames
+        except Exception as e:
+            with open(os.path.join(d, "_events"), "a") as f:
+                f.write(json.dumps({"ev": "monitor-unavailable", "why": repr(e)}) + "\n")
+            return
+        ids = {}
+
+        def oid(o):
+            return ids.setdefault(id(o), len(ids))
+
+        def pn(self, quic_packet):
+            r = o_pn(self, quic_packet)
+            log.emit(ev="pn", o=oid(self), srv=bool(quic_packet.isserver), type=str(getattr(quic_packet.packet_type, "name", quic_packet.packet_type)),
+                     trunc=_hex(quic_packet.packet_num), full=int.from_bytes(bytes(r), "big"))
+            return r
+
+        def parse(payload, src_packet, *a, **k):
+            r = o_parse(payload, src_packet, *a, **k)
+            fr = []
+            for f in r:
+                item = {"t": f.frame_type if isinstance(f.frame_type, int) else -1, "l": f.length}
+                if hasattr(f, "stream_data") and f.stream_data is not None:
+                    item["sd"] = len(f.stream_data)
+                    item["sid"] = getattr(f, "stream_id", None)
+                    item["off"] = getattr(f, "offset", None)
+                if hasattr(f, "crypto"):
+                    item["cd"] = len(f.crypto)
+                    item["off"] = getattr(f, "offset", None)
+                fr.append(item)
+            log.emit(ev="frames", n=len(payload), fr=fr)
+            return r
+
+        def dump_keys(self, where):
+            ks = {k: _hex(v) for k, v in (getattr(self, "keys", {}) or {}).items() if v is not None}
+            decs = {}
+            for name, dec in (getattr(self, "decryptors", {}) or {}).items():
+                lst = dec if isinstance(dec, list) else [dec]
+                decs[name] = [{a: _hex(getattr(x, a, None)) for a in ("server_key", "server_iv", "client_key", "client_iv")} for x in lst]
+            log.emit(ev="qkeys", o=oid(self), where=where, keys=ks, decs=decs, epoch_c=getattr(self, "epoch_client", None), epoch_s=getattr(self, "epoch_server", None))
+
+        def set_init(self, dcid, chacha20, *a, **k):
+            r = o_init(self, dcid, chacha20, *a, **k)
+            log.emit(ev="qinit", o=oid(self), dcid=_hex(dcid), chacha=bool(chacha20))
+            dump_keys(self, "initial")
+            return r
+
+        def set_tls(self, client_random, ciphersuite, *a, **k):
+            r = o_tls(self, client_random, ciphersuite, *a, **k)
+            log.emit(ev="qtls", o=oid(self), suite=_hex(ciphersuite))
+            dump_keys(self, "tls")
+            return r
+
+        def epoch(self, key_phase_bit, isserver, *a, **k):
+            n0 = len(self.decryptors.get("Application", [])) if isinstance(getattr(self, "decryptors", None), dict) else -1
+            r = o_epoch(self, key_phase_bit, isserver, *a, **k)
+            n1 = len(self.decryptors.get("Application", [])) if isinstance(getattr(self, "decryptors", None), dict) else -1
+            if n1 != n0:
+                dump_keys(self, "keyupdate")
+            return r
+
+        cls.get_full_packet_number, cls.set_initial_decryptor, cls.set_tls_decryptors, cls.check_key_epoch = pn, set_init, set_tls, epoch
+        rebind_everywhere(o_parse, parse)
+
+    def verdict(self, raw_events, qconn):
+        from . import qframes
+        evs = parse_events(raw_events)
+        cnt = {"quic.pn_compared": 0, "quic.frames_compared": 0, "quic.key_events": 0}
+        if any(e["ev"] == "monitor-unavailable" for e in evs):
+            return [], {"quic.monitor_unavailable": 1}
+        seen = []
+        for e in evs:
+            if e["ev"] == "pn":
+                seen.append({"pn": e})
+            elif e["ev"] == "frames" and seen and "frames" not in seen[-1]:
+                seen[-1]["frames"] = e
+            elif e["ev"] == "qkeys":
+                cnt["quic.key_events"] += 1
+        sent = [(g.dir, p) for g in qconn.dgrams for p in g.packets if p.space != "retry"]
+        msgs = []
+        if len(seen) != len(sent):
+            msgs.append(f"monitor: the session looked at {len(seen)} packets, the endpoints sent {len(sent)}")
+            return msgs, cnt
+        for i, (s, (d, p)) in enumerate(zip(seen, sent)):
+            cnt["quic.pn_compared"] += 1
+            if s["pn"]["full"] != p.pn:
+                msgs.append(f"monitor: packet {i} ({d}, {p.space}): packet number reconstructed as {s['pn']['full']} from {s['pn']['trunc']}, sent {p.pn} in {p.pn_len} bytes")
+                break
+            if "frames" in s:
+                cnt["quic.frames_compared"] += 1
+                want = [t["kind"] for t in qframes.normalise(p.frames)]
+                got = [qframes.KIND_OF_TYPE.get(f["t"], f"?{f['t']}") for f in s["frames"]["fr"]]
+                if want != got:
+                    msgs.append(f"monitor: packet {i} ({d}, {p.space}, pn {p.pn}): frames parsed as {got[:10]}, sent {want[:10]}")
+                    break
+                wsd = [len(t["stream_data"]) for t in p.frames if t["kind"] == "STREAM"]
+                gsd = [f["sd"] for f in s["frames"]["fr"] if "sd" in f]
+                if wsd != gsd:
+                    msgs.append(f"monitor: packet {i}: STREAM data lengths parsed {gsd}, sent {wsd}")
+                    break
+        return msgs[:2], cnt
